@@ -109,7 +109,10 @@ func checkC02(c *hx.Ctx) {
 		nUnpub := 0
 		if r.Chance(1, 3) {
 			for k := 0; k < 1+r.Intn(2); k++ {
-				l := hx.Pick(r, []string{"u01", "u02", "u12", "r01", "d0"})
+				l := hx.Pick(r, []string{"u01", "u02", "u12", "r01", "d0", "Cdup", "Cdup", "C"})
+				if l == "Cdup" || l == "C" {
+					c.Count("sets_with_unpublished_create")
+				}
 				ops = append(ops, Place(u.Ops[l], uint64(5+k), 0, "", p.GenesisTime)) // earlier "time" than published ones on purpose; distinct per operation
 				nUnpub++
 			}
@@ -216,4 +219,5 @@ func checkC02(c *hx.Ctx) {
 	c.Floor("sets_with_disagreeing_time_and_number_order", 50)
 	c.Floor("sets_with_unpublished_competitor", 20)
 	c.Floor("additional_operation_splits", 100)
+	c.Floor("sets_with_unpublished_create", 20)
 }
